@@ -117,7 +117,10 @@ pub fn parse_datetime(s: &str) -> Result<(NaiveDateTime, NaiveDateTime), String>
                     _ => Err("Error parsing date/time value: ".to_string() + s),
                 }
             } else if s.len() >= 2 && (s.starts_with("+") || s.starts_with("-")) {
-                let days = s.parse::<i64>().unwrap();
+                let days = match s.parse::<i64>() {
+                    Ok(days) => days,
+                    _ => return Err("Error parsing date/time value: ".to_string() + s),
+                };
                 let date = Local::now().date_naive() + Duration::days(days);
                 let start = date.and_hms_opt(0, 0, 0).unwrap();
                 let finish = date.and_hms_opt(23, 59, 59).unwrap();
